@@ -228,7 +228,7 @@ def run(chk):
                     break
                 st = {f: ('none' if cur[f] is None else 'a') for f in VAL}
                 op = rng.choice(['authenticate', 'refresh', 'validate', 'invalidate', 'join', 'sign_out', 'authenticate_inv'])
-                reply = (rng.choice([200, 204, 400, 403, 500, 503]), rng.choice(sorted(BODIES)))
+                reply = (rng.choice([200, 204, 400, 401, 403, 404, 429, 500, 502, 503, 504]), rng.choice(sorted(BODIES)))
                 row = index[(json.dumps(st, sort_keys=True), op, reply)]
                 svc.calls, svc.reply = [], reply
                 res = perform(auth, tok, op)
